@@ -119,11 +119,16 @@ pub fn compare(af: &AAFramework<usize>, m: &Model) {
     require!(!af.argument_set().has_argument_with_id(m.next_id), "C12: no identifier beyond the last one handed out");
 }
 
-/// One operation chosen by the nondeterminism layer, applied to both; returns false if the op was rejected.
+/// One operation chosen by the nondeterminism layer, applied to both.
 pub fn step(af: &mut AAFramework<usize>, m: &mut Model, kinds: u32) {
     let kind = nd::below(kinds);
     let x = nd::below(L as u32) as usize;
     let y = nd::below(L as u32) as usize;
+    apply(af, m, kind, x, y);
+}
+
+/// Applies one operation to the store and to the model, checking the operation's own result.
+pub fn apply(af: &mut AAFramework<usize>, m: &mut Model, kind: u32, x: usize, y: usize) {
     match kind {
         0 => {
             af.new_argument(lab(x));
@@ -171,8 +176,16 @@ pub fn step(af: &mut AAFramework<usize>, m: &mut Model, kinds: u32) {
 /// intermediate states are the final states of the shorter histories, which have their own harnesses), the error
 /// behaviour of each operation is checked when it is applied.
 pub fn history<const K: usize>() {
+    history_from::<K>(&[]);
+}
+
+/// The same after a concrete prefix of operations (so that the symbolic operations start from a populated store).
+pub fn history_from<const K: usize>(prefix: &[(u32, usize, usize)]) {
     let mut af: AAFramework<usize> = AAFramework::default();
     let mut m = Model::new();
+    for (k, x, y) in prefix.iter() {
+        apply(&mut af, &mut m, *k, *x, *y);
+    }
     for _ in 0..K {
         step(&mut af, &mut m, 4);
     }
